@@ -296,3 +296,39 @@ func VerifH_C02_CompressedInput() {
 	verifrt.Assert(ok && verifrt.EqBytes(mx.Name, zy) && verifrt.EqBytes(mx.MX, xy) && mx.Pref == refU16(pref, 0) && mx.TTL == refU32(t2, 0), "MX owner (pointer into RDATA), exchange and numbers")
 	vRoundTrip(m)
 }
+
+// VerifH_C02_AcceptedRecordRoundTrip: C02 quantifies over "all messages the decoder ACCEPTS" — so the decoder's
+// accepting set is part of the property. A wire record of each interpreted type (A, AAAA, NS, MX, SOA, SRV) and of
+// TXT/OPT, root owner, with ANY declared RDLENGTH 0..255 and up to 8 (thorough 10) arbitrary RDATA octets, cut anywhere:
+// whenever the decoder accepts it, (1) what it decoded is what an independent decoder reads from the same octets
+// (owner, type, class, TTL, and the RDATA in the type's own format — in particular an interpreted type is never
+// accepted with RDATA that is not of that format, e.g. empty), and (2) re-encoding it yields octets the independent
+// decoder reads back to the same record.
+func VerifH_C02_AcceptedRecordRoundTrip_S8() {
+	verifrt.Unwind(160)
+	verifrt.Expect("accepted")
+	typ := vC01Types[verifrt.Shard()]
+	nt := 8
+	if verifrt.Thorough() {
+		nt = 10
+	}
+	prefix := []byte{0, byte(typ >> 8), byte(typ), 0, 1, 0, 0, 0, 5}
+	tail := verifrt.Bytes("tail", nt) // RDLENGTH (2) + RDATA, possibly truncated
+	msg := append(append([]byte(nil), prefix...), tail...)
+	if len(tail) >= 1 {
+		verifrt.Assume(tail[0] == 0)
+	}
+	r, off, err := unpackResource(msg, 0)
+	if err != nil {
+		verifrt.Reach("rejected")
+		return
+	}
+	verifrt.Reach("accepted")
+	end := refCheckResource(msg, 0, r, "input (reference)")
+	verifrt.Assert(end == off, "the record ends where its RDLENGTH says")
+	b := pool.GetBuf(r.packLen())
+	n, err := r.pack(b, 0, nil)
+	verifrt.Assert(err == nil && n == r.packLen(), "an accepted record re-encodes, to its advertised length")
+	end2 := refCheckResource(b[:n], 0, r, "output (reference)")
+	verifrt.Assert(end2 == n, "no trailing or missing octets")
+}
